@@ -29,7 +29,7 @@ type CallKey struct {
 
 // Fault describes how an invocation fails.
 type Fault struct {
-	Kind string // "error" plain error; "group" ggql.Errors of N members; "gerror" *ggql.Error with extensions; "nth" list accessor failure at element N
+	Kind string // "error" plain error; "group" ggql.Errors of N members; "gerror" *ggql.Error with extensions; "sentinel" one shared *ggql.Error instance; "nth" list accessor failure at element N
 	N    int
 }
 
